@@ -3,4 +3,4 @@
    C05_facts_pinned or C16_facts_pinned. *)
 From Label Require Import LModel Iso Linear.
 Definition gen_label_facts : label_facts :=
-  mkLabelFacts IsoDocumented (Some true) ShortLt0 ReplPositional true DirDocumented true InitIsoName.
+  mkLabelFacts IsoDocumented (Some true) ShortLt0 ReplPositional true DirDocumented true InitIsoName ExpDuplicated.
